@@ -59,7 +59,10 @@ pub fn catch_subject_panic<R>(f: impl FnOnce() -> R) -> Result<R, (String, Strin
         Ok(v) => Ok(v),
         Err(_) => {
             let (loc, msg) = LAST_PANIC.with(|p| p.borrow_mut().take()).unwrap_or_default();
-            if loc.starts_with("/repo/") || loc.starts_with("src/") && !loc.contains("harness") {
+            // the crate under test is a path dependency (absolute location); the harness' own files
+            // are relative ("src/…"); a panic inside a registry crate was reached through either and
+            // is attributed to the subject (the harness only feeds those crates fixed, valid inputs)
+            if loc.starts_with("/repo/") || loc.contains("/.cargo/registry/") {
                 Err((loc, msg))
             } else {
                 machinery(&format!("harness panic at {loc}: {msg}"))
@@ -491,6 +494,12 @@ where
                 Some(&s) if s <= node.spent => false,
                 _ => true,
             };
+            if let Ok(t) = std::env::var("VERIF_TRACE") {
+                let h = format!("{:?}", node.hist);
+                if t.starts_with(h.trim_end_matches(']')) || h.starts_with(t.trim_end_matches(']')) {
+                    eprintln!("TRACE {h} fp={:032x} spent={} new={new} enabled={:?} violation={:?}", out.fp, node.spent, out.enabled, out.violation.as_ref().map(|v| &v.key));
+                }
+            }
             if !new {
                 continue;
             }
